@@ -24,6 +24,7 @@ static std::string seqStr(const std::vector<TaskV>& a) {
 	return s + "]";
 }
 static bool isBare(const Info& f, uint8_t s) { return s != NOID && s < 64 && ((f.bare >> s) & 1); }
+static bool defines(const Info& f, uint8_t s, uint8_t m) { if (s == NOID) return f.head != 0; return s < 64 && ((f.defMask[s] >> m) & 1); }
 static int injOf(const Info& f, uint8_t s) { return s == NOID ? f.headInj : (s < 64 ? f.inj[s] : 0); }
 
 // ---- report tracking shared by C08 / C09 -------------------------------------------------------------
@@ -369,7 +370,7 @@ void c16(const Trace& t, const Analysis& A, Verdict& V) {
 				if (!ok) V.add(16, i, "task-status record without a succeed()/fail() call at this moment");
 			} else if (e.method == LOG_METHOD) {
 				// must be immediately followed by a delivery to that state of that method, unless the state defines no callback
-				const bool bare = isBare(f, e.a) || (e.a == NOID && !f.head);   // a headless root is a state that defines no callback
+				const bool bare = !defines(f, e.a, e.b);   // the state class does not define this callback (a headless root defines none)
 				const bool next = i + 1 < t.n && t.ev[i + 1].kind == EV_CB && t.ev[i + 1].inst == e.inst && t.ev[i + 1].state == e.a && t.ev[i + 1].method == e.b;
 				if (!next) {
 					const bool reactFamily = e.b == M_PRE_REACT || e.b == M_REACT || e.b == M_POST_REACT || e.b == M_QUERY;
@@ -392,7 +393,7 @@ void c16(const Trace& t, const Analysis& A, Verdict& V) {
 			if (e.method == OP_FAIL && !nextIs(i, e.inst, LOG_TASK, e.a, 1, true)) V.add(16, i, "external fail() produced no task-status record");
 		}
 		// every delivery to a state that defines the callback is preceded by exactly one method record
-		if (e.kind == EV_CB && !isBare(f, e.state)) {
+		if (e.kind == EV_CB && defines(f, e.state, e.method)) {
 			// is this the first callback of a delivery block?
 			const int k = isOutcome(e.method) ? 0 : injOf(f, e.state);
 			// count preceding consecutive CBs of the same (state, method) back to the nearest method record / other event
@@ -594,6 +595,7 @@ bool nontrivial(int prop, uint64_t c) {
 	case 10: return (c & CL_PLAN_FULL) != 0;
 	case 11: return (c & (CL_VETO_AFTER_PASS | CL_REENTER)) && (c & (CL_REPLAY | CL_TRANSITIONS2));
 	case 12: return (c & CL_SAVE_LOAD_DIFF) != 0;
+	case 14: return (c & (CL_OUTCOME_SUCC | CL_OUTCOME_FAIL | CL_INJ2)) != 0;
 	case 15: return (c & CL_INJ2) != 0;
 	case 16: return (c & CL_LOGGER_TOGGLE) && (c & (CL_PLAN_FIRE | CL_CANCEL_LOG));
 	case 17: return (c & CL_COPY_NONTRIV) != 0 || (c & CL_CB_WITH_REQ && c & CL_COPY);
@@ -617,6 +619,7 @@ const char* nontrivialRule(int prop) {
 	case 10: return "the plan reached full capacity (append refused or plan length == capacity)";
 	case 11: return "an authority step with a veto after a pass or a re-entry, together with replay or >= 2 transitions";
 	case 12: return "a load where saver and loader activity differ";
+	case 14: return "a plan outcome callback ran on the root head, or a delivery to a state with >= 2 injections";
 	case 15: return "a delivery to a state with >= 2 injections";
 	case 16: return "logger attached/detached mid-history and a plan-fired transition or a cancellation occurred";
 	case 17: return "copy taken with non-empty history or plan, or with an outstanding request";
